@@ -26,8 +26,15 @@ PROP = dict(
           "the socket (so a cut inside a value leaves the reader in a read that needs another recv) plus 0..500 us, then sends the next piece, and "
           "finally shuts its side down; timing only decides which path of the reader is taken, the oracle is values read == reference, no error "
           "state, nothing left. The grid also writes five of its arrays again in the next order and two in the first one. "
+          "Length-prefixed strings (op 'ls'): written as << int(length) << String and read back with File >> String and Socket >> String, which "
+          "the library defines as an int32 length in the stream's byte order followed by that many bytes (StreamBufferReader: int, then bytes; the empty "
+          "string over a Socket is read as its length only, because a zero-byte read is recorded as a receive error by the unchanged library). "
+          "Reconnects (part reconn): one client Socket object, byte order set ONCE before the first connect, 2..3 TCP sessions to a loopback listener of "
+          "the harness (port 0, read back) with close() + connect() in between; each session is either written by the client (the accepted peer reads "
+          "exactly the reference bytes of every item, nothing extra before end of stream) or read by it (the peer sends the reference bytes); the order "
+          "in force carries over from session to session and changes only at 'order' items. "
           "Non-trivial: the sequence contains a non-empty array of a multi-byte type, or an effective order switch, or NATIVE order, or a multi-byte "
-          "array written again, or a cut inside a value whose next piece holds more than the rest of that value. Distinct = distinct FNV-1a hash of "
+          "array written again, or a cut inside a value whose next piece holds more than the rest of that value, or a later session of a reconnecting Socket that carries multi-byte data in BIG order without an order item of its own. Distinct = distinct FNV-1a hash of "
           "the serialised case."),
     assumptions=["the reference serializer (shifts of the unsigned bit pattern; NATIVE decided by inspecting the bytes of uint16_t 1) is right",
                  "bool values are true/false only (a bool object holding another bit pattern is not a value)",
